@@ -284,6 +284,29 @@ func (s *JavaFullListener) EnterLocalVariableDeclaration(ctx *parser.LocalVariab
 	}
 }
 
+// the variables of `for (Helper h : hs)`, `try (Conn c = open())` and `catch (HelperException e)` are locals too
+func (s *JavaFullListener) EnterEnhancedForControl(ctx *parser.EnhancedForControlContext) {
+	if ctx.TypeType() == nil {
+		return
+	}
+	localVars[ctx.VariableDeclaratorId().(*parser.VariableDeclaratorIdContext).Identifier().GetText()] = ctx.TypeType().GetText()
+}
+
+func (s *JavaFullListener) EnterResource(ctx *parser.ResourceContext) {
+	if ctx.ClassOrInterfaceType() == nil || ctx.VariableDeclaratorId() == nil {
+		return
+	}
+	localVars[ctx.VariableDeclaratorId().(*parser.VariableDeclaratorIdContext).Identifier().GetText()] = ctx.ClassOrInterfaceType().GetText()
+}
+
+func (s *JavaFullListener) EnterCatchClause(ctx *parser.CatchClauseContext) {
+	names := ctx.CatchType().(*parser.CatchTypeContext).AllQualifiedName()
+	if len(names) != 1 || ctx.Identifier() == nil {
+		return
+	}
+	localVars[ctx.Identifier().GetText()] = names[0].GetText()
+}
+
 func (s *JavaFullListener) EnterAnnotation(ctx *parser.AnnotationContext) {
 	// Todo: support override method
 	if ctx.QualifiedName() == nil {
